@@ -10,6 +10,8 @@ import (
 	"encoding/json"
 	"flag"
 	"fmt"
+	"io"
+	"net/http"
 	"os"
 	"path/filepath"
 	"regexp"
@@ -17,6 +19,7 @@ import (
 	"strings"
 	"sync"
 
+	"github.com/nyaruka/gocommon/httpx"
 	"github.com/nyaruka/gocommon/i18n"
 	"github.com/nyaruka/gocommon/urns"
 	"github.com/nyaruka/gocommon/uuids"
@@ -63,6 +66,49 @@ type job struct {
 	known    map[string]bool
 }
 
+// a flow set written for this check: fixed recipients plus legacy variables (the recipient lists of the cached flow must not
+// be extended in place), and a webhook that answers a bare JSON boolean, referenced before and after a wait
+const syntheticAssets = `{
+  "channels": [{"uuid": "57f1078f-88aa-46f4-a59a-948a5739c03d", "name": "Android", "address": "+17036975131", "schemes": ["tel"], "roles": ["send", "receive"], "country": "US"}],
+  "flows": [
+    {"uuid": "9a1b2c3d-0000-4000-8000-000000000001", "name": "Recipients", "spec_version": "13.6.0", "language": "eng", "type": "messaging", "revision": 1, "expire_after_minutes": 60, "localization": {},
+     "nodes": [{"uuid": "9a1b2c3d-0000-4000-8000-000000000011", "actions": [
+        {"uuid": "9a1b2c3d-0000-4000-8000-000000000021", "type": "send_broadcast", "text": "hi @contact.name", "urns": ["tel:+12065550001", "tel:+12065550002", "tel:+12065550003"], "legacy_vars": ["@urns.tel", "@contact.uuid"]},
+        {"uuid": "9a1b2c3d-0000-4000-8000-000000000022", "type": "start_session", "flow": {"uuid": "9a1b2c3d-0000-4000-8000-000000000002", "name": "Hook"},
+         "contacts": [{"uuid": "9a1b2c3d-0000-4000-8000-0000000000a1", "name": "A"}, {"uuid": "9a1b2c3d-0000-4000-8000-0000000000a2", "name": "B"}, {"uuid": "9a1b2c3d-0000-4000-8000-0000000000a3", "name": "C"},
+                      {"uuid": "9a1b2c3d-0000-4000-8000-0000000000a4", "name": "D"}, {"uuid": "9a1b2c3d-0000-4000-8000-0000000000a5", "name": "E"}],
+         "legacy_vars": ["@contact.uuid", "@urns.tel"], "exclusions": {}},
+        {"uuid": "9a1b2c3d-0000-4000-8000-000000000023", "type": "send_broadcast", "text": "again", "urns": ["tel:+12065550001", "tel:+12065550002", "tel:+12065550003", "tel:+12065550004", "tel:+12065550005", "tel:+12065550006"], "legacy_vars": ["@urns.tel"]}],
+       "router": {"type": "switch", "operand": "@input.text", "wait": {"type": "msg"}, "cases": [], "categories": [{"uuid": "9a1b2c3d-0000-4000-8000-000000000031", "name": "All", "exit_uuid": "9a1b2c3d-0000-4000-8000-000000000041"}], "default_category_uuid": "9a1b2c3d-0000-4000-8000-000000000031"},
+       "exits": [{"uuid": "9a1b2c3d-0000-4000-8000-000000000041"}]}]},
+    {"uuid": "9a1b2c3d-0000-4000-8000-000000000002", "name": "Hook", "spec_version": "13.6.0", "language": "eng", "type": "messaging", "revision": 1, "expire_after_minutes": 60, "localization": {},
+     "nodes": [{"uuid": "9a1b2c3d-0000-4000-8000-000000000012", "actions": [
+        {"uuid": "9a1b2c3d-0000-4000-8000-000000000024", "type": "call_webhook", "method": "GET", "url": "http://example.com/bool", "result_name": "Hook"},
+        {"uuid": "9a1b2c3d-0000-4000-8000-000000000025", "type": "send_msg", "text": "before: @webhook.json @(parse_json(\"true\")) @(parse_json(\"{\\\"ok\\\": true, \\\"no\\\": false}\").ok) @results.hook.extra"}],
+       "router": {"type": "switch", "operand": "@input.text", "wait": {"type": "msg"}, "cases": [], "categories": [{"uuid": "9a1b2c3d-0000-4000-8000-000000000032", "name": "All", "exit_uuid": "9a1b2c3d-0000-4000-8000-000000000042"}], "default_category_uuid": "9a1b2c3d-0000-4000-8000-000000000032"},
+       "exits": [{"uuid": "9a1b2c3d-0000-4000-8000-000000000042", "destination_uuid": "9a1b2c3d-0000-4000-8000-000000000013"}]},
+      {"uuid": "9a1b2c3d-0000-4000-8000-000000000013", "actions": [
+        {"uuid": "9a1b2c3d-0000-4000-8000-000000000026", "type": "send_msg", "text": "after: @webhook.json @webhook @(parse_json(\"false\")) @(json(webhook))"}],
+       "router": {"type": "switch", "operand": "@input.text", "wait": {"type": "msg"}, "cases": [], "categories": [{"uuid": "9a1b2c3d-0000-4000-8000-000000000033", "name": "All", "exit_uuid": "9a1b2c3d-0000-4000-8000-000000000043"}], "default_category_uuid": "9a1b2c3d-0000-4000-8000-000000000033"},
+       "exits": [{"uuid": "9a1b2c3d-0000-4000-8000-000000000043"}]}]}
+  ]
+}`
+
+// answers webhooks from the URL alone (no network in the sandbox, and every worker must see the same answers)
+type urlRequestor struct{}
+
+func (urlRequestor) Do(client *http.Client, request *http.Request) (*http.Response, error) {
+	body, status := "not found", 404
+	u := request.URL.String()
+	for _, m := range [][2]string{{"bool", "true"}, {"false", "false"}, {"obj", `{"ok":true,"n":1}`}} {
+		if strings.Contains(u, m[0]) {
+			body, status = m[1], 200
+		}
+	}
+	return &http.Response{Status: fmt.Sprintf("%d X", status), StatusCode: status, Proto: "HTTP/1.1", ProtoMajor: 1, ProtoMinor: 1,
+		Header: http.Header{"Content-Type": []string{"application/json"}}, Body: io.NopCloser(strings.NewReader(body)), ContentLength: int64(len(body)), Request: request}, nil
+}
+
 func loadJobs(dir string) []job {
 	files, _ := filepath.Glob(filepath.Join(dir, "*.json"))
 	sort.Strings(files)
@@ -105,6 +151,12 @@ func loadJobs(dir string) []job {
 			jobs = append(jobs, j)
 		}
 	}
+	syn := job{file: "synthetic-recipients-webhook", data: []byte(syntheticAssets), known: map[string]bool{},
+		flowUUID: []assets.FlowUUID{"9a1b2c3d-0000-4000-8000-000000000001", "9a1b2c3d-0000-4000-8000-000000000002"}}
+	for _, u := range uuidRe.FindAllString(syntheticAssets, -1) {
+		syn.known[u] = true
+	}
+	jobs = append(jobs, syn)
 	return jobs
 }
 
@@ -150,8 +202,8 @@ func work(env envs.Environment, sa flows.SessionAssets, j job, w int) string {
 		return "flow-error=" + err.Error()
 	}
 	eng := test.NewEngine()
-	contact := flows.NewEmptyContact(sa, fmt.Sprintf("Worker %d", w%3), i18n.Language("eng"), nil)
-	contact.AddURN(urns.URN(fmt.Sprintf("tel:+1206555%04d", w%3)), nil)
+	contact := flows.NewEmptyContact(sa, fmt.Sprintf("Worker %d", w), i18n.Language("eng"), nil)
+	contact.AddURN(urns.URN(fmt.Sprintf("tel:+1206555%04d", 1000+w)), nil)
 	trig := triggers.NewBuilder(env, flow.Reference(false), contact).Manual().Build()
 	s, sp, err := eng.NewSession(sa, trig)
 	if err != nil {
@@ -170,7 +222,7 @@ func work(env envs.Environment, sa flows.SessionAssets, j job, w int) string {
 			break
 		}
 		s = s2
-		msg := flows.NewMsgIn(flows.MsgUUID(uuids.NewV4()), urns.URN(fmt.Sprintf("tel:+1206555%04d", w%3)), nil, []string{"red", "3", "yes", "Ryan Lewis"}[(w+k)%4], nil)
+		msg := flows.NewMsgIn(flows.MsgUUID(uuids.NewV4()), urns.URN(fmt.Sprintf("tel:+1206555%04d", 1000+w)), nil, []string{"red", "3", "yes", "Ryan Lewis"}[(w+k)%4], nil)
 		sp, err := s.Resume(resumes.NewMsg(nil, nil, msg))
 		if err != nil {
 			out = append(out, "resume-error="+err.Error())
@@ -201,6 +253,7 @@ func main() {
 	rounds := flag.Int("rounds", 1, "repetitions")
 	dump := flag.String("dump", "", "write the two outputs of the first disagreement here")
 	flag.Parse()
+	httpx.SetRequestor(urlRequestor{})
 	env := envs.NewBuilder().WithAllowedLanguages("eng", "spa", "fra").WithDefaultCountry("US").Build()
 	jobs := loadJobs(*dir)
 	for round := 0; round < *rounds; round++ {
